@@ -1433,20 +1433,6 @@ fn finding_case(case: u64, rng: &mut Rng, st: &mut Stats, n_ops: usize) {
     st.merge(local);
 }
 
-fn finding_registered() -> bool {
-    let p = vcore::run::verif_root().join("known_findings.json");
-    let Some(v) = std::fs::read_to_string(p).ok().and_then(|t| serde_json::from_str::<Value>(&t).ok())
-    else {
-        return false;
-    };
-    v.get("findings").and_then(|f| f.as_array()).is_some_and(|a| {
-        a.iter().any(|f| {
-            f.get("property").and_then(|p| p.as_str()) == Some("C11")
-                && f.get("signature").and_then(|s| s.as_str()) == Some(FINDING_SIG)
-        })
-    })
-}
-
 // ---------------------------------------------------------------------------------------------
 // monitor 3: controlled thread schedules at verif points + per-document linearizability
 
@@ -2017,7 +2003,7 @@ fn main() {
     run.assume("flush is never run concurrently with mutations or compaction (documented caller contract)");
     run.assume("crash model of the callback API: each bucket/metadata write is atomic, the sequence is interruptible anywhere; a failing write may or may not have landed");
     run.assume("model tokens come from the crate's own default tokenizer + collect_tokens (the tokenizer is not under test)");
-    run.assume("remove with non-original text: entries it leaves behind are asserted invisible while the id is not indexed and pruned by a load; verdict histories re-insert such an id only with the tokens it had (which makes the entries current again); re-inserting it with other tokens is exercised in the separate section stale_reinsert (candidate defect, see sections_not_run / known findings)");
+    run.assume("remove with non-original text: entries it leaves behind are asserted invisible while the id is not indexed and pruned by a load; verdict histories re-insert such an id only with the tokens it had (which makes the entries current again); re-inserting it with other tokens is exercised in the section stale_reinsert");
     run.assume("threads blocked on a real lock are recognised by a 2 ms no-transition window; this shapes exploration only");
     run.assume("no two threads race an insert against a remove of the same id (ids are caller-assigned and unique; see report)");
     let t = run.tier;
@@ -2049,18 +2035,12 @@ fn main() {
             sched_case(c, rng, st, t.pick(150, 1000), false, true, dl)
         });
     }
-    // Histories that index a document over stale entries of its id: a candidate defect of the
-    // crate, not part of the verdict until it is registered in known_findings.json (then it is
-    // run and reported as KNOWN-FINDING); `--only finding` runs it unconditionally.
-    let run_finding = run.only.as_deref() == Some("finding")
-        || run.replay.is_some()
-        || (run.only.is_none() && finding_registered());
-    if run_finding {
-        // last section: its violations must not crowd out those of the verdict sections
+    // Histories that index a document over stale entries of its id (a remove with non-original
+    // text followed by a re-insert with other tokens). This was a genuine defect of the crate,
+    // repaired by a "fix:" commit (see known_findings.json, "fixed"); the section is a regular
+    // part of the verdict and reports the violation again should it ever return.
+    if run.wants("finding") || run.wants("stale_reinsert") {
         run.parallel("stale_reinsert", t.pick(100, 6000), t.pick(0.12, 0.9), |c, rng, st| finding_case(c, rng, st, 40));
-    } else if run.only.is_none() {
-        run.set_extra("sections_not_run", json!([format!(
-            "stale_reinsert: candidate defect {FINDING_SIG} is not registered in known_findings.json (run with --only finding)")]));
     }
     run.floor("flush_crash_prefixes", 200);
     run.floor("crash_prefix_before_commit", 50);
